@@ -72,6 +72,21 @@ Fixpoint qspec_from (st : list Z) (ops : list qop) : list qout * list Z :=
       (o :: os, st2)
   end.
 
+(* the values given to Enqueue, in order; the values returned by the successful Dequeues, in order *)
+Fixpoint enq_vals (ops : list qop) : list Z :=
+  match ops with
+  | [] => []
+  | QEnqueue v :: t => v :: enq_vals t
+  | _ :: t => enq_vals t
+  end.
+
+Fixpoint deq_vals (ops : list qop) (outs : list qout) : list Z :=
+  match ops, outs with
+  | QDequeue :: t, QVal v true :: u => v :: deq_vals t u
+  | _ :: t, _ :: u => deq_vals t u
+  | _, _ => []
+  end.
+
 (* ================= Stack: type Stack[T] []T ================= *)
 (* Backing-array model of a slice: visible part = first [slen] cells of [arr],
    capacity = length arr; the cells beyond slen keep whatever was written
